@@ -85,15 +85,6 @@ def run_forked(fn, arg, wall_limit: float = 120.0):
         try:
             os.close(r)
             try:
-                import faulthandler
-
-                faulthandler.dump_traceback_later(
-                    max(1, int(wall_limit) - 1), exit=False,
-                    file=sys.__stderr__,
-                )
-            except Exception:
-                pass
-            try:
                 val = fn(arg)
                 payload = json.dumps({"ok": True, "val": val})
             except SystemExit as e:  # code under test called exit()
